@@ -1765,7 +1765,7 @@ def bipartite_shift(N, M, pattern=[]):
     G.name = "bipartite_shift_regular({},{},{})".format(N, M, pattern)
 
     L, R = G.parts()
-    pattern.sort()
+    pattern = sorted(pattern)
     for u in L:
         for offset in pattern:
             G.add_edge(u, 1 + (u - 1 + offset) % M)
